@@ -276,7 +276,7 @@ def _counters(ctx):
                            'the children containers are reset only after '
                            'every child was withdrawn through remove_node')
     ctx.require(detach >= 3, 'routines detaching children (found %d)' %
-                detach)
+                detach, rule='C04.1')
     return node_cls, server
 
 
@@ -293,7 +293,7 @@ def _polarity(ctx, node_cls):
             local[sub.targets[0].id] = sub.value
     rets = [s for s in K.walk_no_nested(func.node)
             if isinstance(s, ast.Return)]
-    ctx.require(rets, 'return of check_app_affinity_limit')
+    ctx.require(rets, 'return of check_app_affinity_limit', rule='C04.2')
 
     class Sub(ast.NodeTransformer):
         def visit_Name(self, node):
@@ -326,7 +326,7 @@ def _every_level(ctx, node_cls, server, base):
             if loop.places(call) and K.recv_text(call) != 'self':
                 direct.append((loop.func, node, call))
     ctx.require(len(direct) >= 2, 'direct put/restore sites in the '
-                                  'placement loop')
+                                  'placement loop', rule='C04.3')
     if leaf is None:
         for func, node, call in direct:
             ctx.fail('C04.3', func, node,
@@ -360,7 +360,7 @@ def _every_level(ctx, node_cls, server, base):
                    'an instance is recorded on the server only after the '
                    'admission predicate (limits of every level) accepted it',
                    construct='store into self.apps in %s' % func.name)
-    ctx.require(stores >= 1, 'store into Server.apps')
+    ctx.require(stores >= 1, 'store into Server.apps', rule='C04.3')
     graph = ctx.cfg(leaf)
     app = leaf.params()[1]
     heads = [n for n in graph.nodes if n.kind == 'loop_head']
@@ -531,7 +531,7 @@ def _attach_empty(ctx):
                        're-admitted against the limits of the new '
                        'ancestors (%s)' % N.txt(live[0]),
                        construct='attach %s' % N.txt(arg))
-    ctx.require(seen >= 3, 'add_node call sites of the loader')
+    ctx.require(seen >= 3, 'add_node call sites of the loader', rule='C04.3')
 
 
 def check(ctx):
